@@ -271,6 +271,36 @@ theorem dynamic_follows (fam : Family) (ori : Nat × Nat) (st : State) (s : Size
   | error e => simp [renderObs, hst']
   | ok p => obtain ⟨w, h⟩ := p; simp [renderObs, hst']
 
+/-- `rejected_ratio_keeps_state`: a `set_cell_ratio` call that raises — a value ≤ 0 (`ValueError`),
+    a non-number (`TypeError`), FIXED/DYNAMIC without a known cell size (`TermImageError`) — leaves
+    the whole state (size setting *and* environment, in particular the ratio last accepted) as it was,
+    so every later size read and render is what it would have been without the call -/
+theorem rejected_ratio_keeps_state (fam : Family) (ori : Nat × Nat) (st : State) (a : RatioArg) (e : Err)
+    (h : setCellRatio st.env a = .error e) :
+    step fam ori st (.setRatio a) = (st, .err e) ∧
+    (∀ ops, run fam ori st (.setRatio a :: ops) = run fam ori st ops) ∧
+    (∀ ops, (trace fam ori st (.setRatio a :: ops)).tail = trace fam ori st ops) := by
+  have hs : step fam ori st (.setRatio a) = (st, .err e) := by simp [step, h]
+  refine ⟨hs, fun ops => by simp [run, hs], fun ops => by simp [trace, hs]⟩
+
+/-- the rejected arguments: every `bad` value and a zero float are rejected whatever the state; an
+    accepted positive float is stored -/
+theorem ratio_rejections (env : Env) (e : Err) (r : F64) :
+    setCellRatio env (.bad e) = .error e ∧
+    (r.isZero = true → setCellRatio env (.value r) = .error .valueError) ∧
+    (r.isZero = false → setCellRatio env (.value r) = .ok (some r)) ∧
+    (env.cell = none → setCellRatio env .fixed = .error .termImageError ∧
+      setCellRatio env .dynamic = .error .termImageError) := by
+  refine ⟨rfl, fun h => by simp [setCellRatio, h], fun h => by simp [setCellRatio, h], fun h => by simp [setCellRatio, h]⟩
+
+example :
+    let st : State := ⟨.dynamic .fit, ⟨80, 30, none, some (divNat 1 2)⟩⟩
+    trace .text (1000, 300) st [.setRatio (.bad .valueError), .render, .setRatio (.value F64.zero), .setRatio .fixed, .render]
+      = [(.err .valueError, .dynamic .fit, .ok (80, 12)), (.rendered 80 12, .dynamic .fit, .ok (80, 12)),
+         (.err .valueError, .dynamic .fit, .ok (80, 12)), (.err .termImageError, .dynamic .fit, .ok (80, 12)),
+         (.rendered 80 12, .dynamic .fit, .ok (80, 12))] := by
+  rfl
+
 /-- the environment operations do what they say (so "current" above means what it should) -/
 theorem env_ops (fam : Family) (ori : Nat × Nat) (st : State) (c l : Nat) (cell : Option (Nat × Nat)) (r : F64)
     (hr : r.isZero = false) :
